@@ -1400,7 +1400,7 @@ def _screen_spec(rng, plates="mixed", observed="some", big=False):
                 n_plates=rng.randint(2, 6), observed=observed, ctrl_frac=rng.choice([0.0, 0.0, 0.2, 0.4]))
 
 
-HASH_KINDS = {"pairwise": 3, "sparse_cover": 15, "plate_permutation": 15, "sample_segregating": 15, "smoother": 24, "random_holdout": 18,
+HASH_KINDS = {"pairwise": 1, "sparse_cover": 15, "plate_permutation": 15, "sample_segregating": 15, "smoother": 24, "random_holdout": 18,
               "balanced_holdout": 24, "policy_filter": 15, "select_next_plate": 9, "cli_prepare": 6, "dbal_scorer": 12, "cli_select_next_plate": 9,
               "random_scorer": 18, "dbal_vectorized": 21, "score_chunk": 12, "sample": 9, "cli_calculate_scores": 12, "cli_train_model": 6,
               "cli_evaluate_model": 9, "cli_analyze_model_evaluation": 9}
@@ -1442,14 +1442,16 @@ def _gen(rng, tier):
             yield dict(core, same_object=True, aspect=LEAK_ASPECT if k in LEAK_KINDS else "repeatable")
         if k in HASH_KINDS and not core.get("norng"):
             count[k] = count.get(k, 0) + 1
-            if count[k] % HASH_KINDS[k] == 1 or (k == "cli_prepare" and "PairwisePlateGenerator" in core["extra"]):
+            if count[k] % HASH_KINDS[k] == 1 % HASH_KINDS[k] or (k == "cli_prepare" and "PairwisePlateGenerator" in core["extra"]):
                 yield dict(core, aspect="hash-seed")
 
     for rep in range(reps):
         for i in range(5):
             yield from emit(dict(kind="sparse_cover", seed=rng.randrange(2 ** 31), screen=_screen_spec(rng, observed="all"), reveal_single=bool(i % 2)))
         for i in range(6):
-            yield from emit(dict(kind="pairwise", seed=rng.randrange(2 ** 31), screen=_screen_spec(rng, observed=rng.choice(["none", "some"]), big=True),
+            # single-agent (control-padded) rows in several samples are what the assignment loop of Pairwise iterates over
+            yield from emit(dict(kind="pairwise", seed=rng.randrange(2 ** 31),
+                                 screen=dict(_screen_spec(rng, observed=rng.choice(["none", "some"]), big=True), **({"ctrl_frac": 0.4} if i % 3 else {})),
                                  subset_size=rng.choice([1, 1, 2]), anchor_size=rng.choice([0, 0, 1, 2])))
         for i in range(5):
             yield from emit(dict(kind="plate_permutation", seed=rng.randrange(2 ** 31), screen=_screen_spec(rng, observed=rng.choice(["none", "some"])),
